@@ -424,3 +424,55 @@ def alias_mutations(ctx):
                 if hit is not None:
                     out.append((ci, s, g, A, B, x, h))
     return out, n
+
+
+def local_memo_hazards(func):
+    """[(store stmt, key text, names)]: a local dictionary used as a memo (`if K not in D: D[K] = V` ... `D[K]`) whose
+    value V is computed from more than the key: a name that occurs in the key (`pulse` in `pulse.geobj`) occurs in V
+    outside that key expression, so entries computed for one element are handed out for another"""
+    out = []
+    locals_dict = {s.targets[0].id for s in walk_no_nested(func.node)
+                   if isinstance(s, ast.Assign) and len(s.targets) == 1 and isinstance(s.targets[0], ast.Name)
+                   and (isinstance(s.value, ast.Dict) and not s.value.keys or
+                        (isinstance(s.value, ast.Call) and isinstance(s.value.func, ast.Name) and s.value.func.id == 'dict'
+                         and not s.value.args and not s.value.keywords))}
+    if not locals_dict:
+        return out
+    for st in walk_no_nested(func.node):
+        if not (isinstance(st, ast.Assign) and len(st.targets) == 1 and isinstance(st.targets[0], ast.Subscript)
+                and isinstance(st.targets[0].value, ast.Name) and st.targets[0].value.id in locals_dict):
+            continue
+        d = st.targets[0].value.id
+        key = st.targets[0].slice
+        ktxt = norm(key)
+        # guarded by a membership test on the same key
+        p = parent(st)
+        guarded = False
+        grouping = False
+        while p is not None and p is not func.node:
+            if isinstance(p, ast.If) and isinstance(p.test, ast.Compare) and len(p.test.ops) == 1 and \
+               isinstance(p.test.ops[0], (ast.NotIn, ast.In)) and norm(p.test.left) == ktxt and \
+               norm(p.test.comparators[0]) == d:
+                guarded = True
+                # `if k not in d: d[k] = [x] else: d[k].append(x)` collects the elements of a key: not a memo
+                for y in ast.walk(p):
+                    if isinstance(y, ast.Call) and isinstance(y.func, ast.Attribute) and y.func.attr in ('append', 'extend', 'add', 'update') \
+                       and isinstance(y.func.value, ast.Subscript) and norm(y.func.value) == '%s[%s]' % (d, ktxt):
+                        grouping = True
+                    if isinstance(y, ast.AugAssign) and norm(y.target) == '%s[%s]' % (d, ktxt):
+                        grouping = True
+            p = parent(p)
+        if not guarded or grouping:
+            continue
+        knames = {x.id for x in ast.walk(key) if isinstance(x, ast.Name)}
+        if isinstance(key, ast.Name):
+            continue            # keyed by the whole element
+        inside = set()
+        for x in ast.walk(st.value):
+            if norm(x) == ktxt if isinstance(x, ast.expr) else False:
+                for y in ast.walk(x):
+                    inside.add(id(y))
+        loose = sorted({x.id for x in ast.walk(st.value) if isinstance(x, ast.Name) and x.id in knames and id(x) not in inside})
+        if loose:
+            out.append((st, ktxt, loose))
+    return out
